@@ -27,6 +27,13 @@
 //!
 //!   `xstress <i> cause= n=` | `w=<kind:result:st:name:pid:pg:mon:kids:link:post,…> sup=<events> st=<final>`
 //!                            (free-running tasks on a multi-threaded runtime; oracle only)
+//!   `xtimeout <i> kind=wait|stop_and_wait|drain_and_wait d=<µs>` | `res=<ok|timeout|err> el=<µs> st=<u8> ev=<k> fin=<u8> term=<k>`
+//!                            (free-running, real clock: a wait with timeout `d` on a target that cannot finish before the
+//!                            harness lets it — `wait`: it keeps running; the other two: its `post_stop` is gated — must
+//!                            report the timeout, not before `d`, with no effect of a timed-out `wait`; oracle only)
+//!   `xchildren <i> kind=stop|drain n=<k>` | `ret=<0|1> kids=<st,…> parent=<st>`
+//!                            (free-running: `stop_children_and_wait` / `drain_children_and_wait` return only when every
+//!                            child is fully stopped, the parent keeps running; oracle only)
 //!
 //!   children wrappers (E-LTS, quiescent points of the controller's paused runtime; k named, pg-joined children under one
 //!   supervisor, handlers gated so that a child can sit in a handler):
@@ -38,7 +45,7 @@
 //!                            the wrapper returned, for every child of the `get_children()` snapshot
 //!   `release <j>` / `kill <j>` / `advance` / `wend`   | `w=… kids=…[ snap=…]`
 //!
-//! usage: exitrace --seed S --cases N --out DIR [--enum-cap K] [--stress N] [--replay-ops f1,f2 [--only-replay 1]]
+//! usage: exitrace --seed S --cases N --out DIR [--enum-cap K] [--stress N] [--timeouts N] [--children N] [--stress-only 1] [--replay-ops f1,f2 [--only-replay 1]]
 
 use std::future::Future;
 use std::pin::Pin;
@@ -303,7 +310,9 @@ fn run_case(env: &mut Env, cause: &str, kinds: &[WKind], ndrain: usize, collapse
 
     // the exiter thread owns the runtime that polls the target actor's task
     let ectl = ThreadCtl::new();
-    let (tx_cell, rx_cell) = mpsc::channel::<(ActorRef<TMsg>, tokio::task::JoinHandle<()>)>();
+    // (the async-std build of this file only RUNS the free-running cases, `main` forces `--stress-only` there:
+    // the cfg lines in this function just keep it compiling against that backend's join handle type)
+    let (tx_cell, rx_cell) = mpsc::channel::<(ActorRef<TMsg>, ractor::concurrency::JoinHandle<()>)>();
     let (tx_go, rx_go) = mpsc::channel::<()>();
     let unsupervised = cause == "stoppanic";
     let exiter = {
@@ -325,10 +334,12 @@ fn run_case(env: &mut Env, cause: &str, kinds: &[WKind], ndrain: usize, collapse
             });
             // the join handle goes to the controller (a `join` waiter polls it by hand); this thread
             // drives the runtime until the actor's task has completed
+            #[cfg(not(feature = "async-std"))]
             let finished = handle.abort_handle();
             tx_cell.send((aref, handle)).unwrap();
             rx_go.recv().unwrap();
             verif::thread_register(ectl.clone());
+            #[cfg(not(feature = "async-std"))]
             rt.block_on(async {
                 while !finished.is_finished() {
                     tokio::task::yield_now().await;
@@ -339,6 +350,7 @@ fn run_case(env: &mut Env, cause: &str, kinds: &[WKind], ndrain: usize, collapse
         })
     };
     let (aref, join_handle) = rx_cell.recv().expect("target actor");
+    #[cfg(not(feature = "async-std"))]
     let aborter = join_handle.abort_handle();
     let mut join_handle = Some(join_handle);
     if prof { eprintln!("spawned {:?}", t0.elapsed()); }
@@ -470,6 +482,7 @@ fn run_case(env: &mut Env, cause: &str, kinds: &[WKind], ndrain: usize, collapse
         }
         // task cancellation: the future (and the port set) is dropped at its await point, the lifecycle
         // guard's `Drop` runs `cleanup` with the "actor_task_cancelled" event
+        #[cfg(not(feature = "async-std"))]
         "abort" => aborter.abort(),
         _ => panic!("unknown cause {cause}"),
     }
@@ -1249,6 +1262,138 @@ fn parse_wcase(head: &[&str], body: &[&str]) -> (String, bool, Vec<String>, Vec<
     (kind, timed, states, script)
 }
 
+// ------------------------------------------------------------------------------------------
+// free-running real-clock cases (agent asyncstd): xtimeout, xchildren — both backends, oracle only
+// ------------------------------------------------------------------------------------------
+
+/// Target of the timeout cases: `post_stop` waits until the harness opens the gate.
+struct Gated {
+    gate: Arc<tokio::sync::Semaphore>,
+}
+impl Actor for Gated {
+    type Msg = Unit;
+    type State = ();
+    type Arguments = ();
+    async fn pre_start(&self, _: ActorRef<Unit>, _: ()) -> Result<(), ActorProcessingErr> {
+        Ok(())
+    }
+    async fn post_stop(&self, _: ActorRef<Unit>, _: &mut ()) -> Result<(), ActorProcessingErr> {
+        let _ = self.gate.acquire().await;
+        Ok(())
+    }
+}
+
+/// `wait(Some(d))` on a running actor, `stop_and_wait(_, Some(d))` / `drain_and_wait(Some(d))` on an actor whose
+/// `post_stop` is gated: the call cannot succeed before the harness lets the actor finish, so it must time out —
+/// measured on the real clock. Afterwards the actor is let go and must stop normally (one terminal event).
+fn timeout_case(env: &mut Env, srt: &tokio::runtime::Runtime, rng: &mut Rng, idx: u64) {
+    let events = Arc::new(Mutex::new(Vec::new()));
+    let kind = *rng.pick(&["wait", "wait", "stop_and_wait", "drain_and_wait"]);
+    let d_us = *rng.pick(&[0u64, 500, 1_000, 2_000, 5_000, 10_000, 20_000]);
+    let gate = Arc::new(tokio::sync::Semaphore::new(0));
+    let obs = srt.block_on(async {
+        let (sup_ref, _) = Actor::spawn(None, Sup { events: events.clone() }, ()).await.expect("spawn sup");
+        let (aref, _h) = Actor::spawn_linked(None, Gated { gate: gate.clone() }, (), sup_ref.get_cell()).await.expect("spawn gated");
+        let cell = aref.get_cell();
+        while aref.get_status() != ractor::ActorStatus::Running {
+            tokio::task::yield_now().await;
+        }
+        let d = Duration::from_micros(d_us);
+        let t0 = std::time::Instant::now();
+        let res = match kind {
+            "wait" => match cell.wait(Some(d)).await {
+                Ok(()) => "ok",
+                Err(_) => "timeout",
+            },
+            "stop_and_wait" => match cell.stop_and_wait(None, Some(d)).await {
+                Ok(()) => "ok",
+                Err(ractor::RactorErr::Timeout) => "timeout",
+                Err(_) => "err",
+            },
+            _ => match cell.drain_and_wait(Some(d)).await {
+                Ok(()) => "ok",
+                Err(ractor::RactorErr::Timeout) => "timeout",
+                Err(_) => "err",
+            },
+        };
+        let el = t0.elapsed().as_micros() as u64;
+        let st = cell.get_status() as u8;
+        let ev = events.lock().unwrap().iter().filter(|e| e.as_str() != "Started").count();
+        // let the actor go: event-driven from here on
+        gate.add_permits(8);
+        if kind == "wait" {
+            cell.stop(None);
+        }
+        let fin_ok = tokio::time::timeout(Duration::from_secs(10), cell.wait(None)).await.is_ok();
+        for _ in 0..2000 {
+            if events.lock().unwrap().iter().any(|e| e.starts_with("Terminated") || e == "Failed") {
+                break;
+            }
+            tokio::time::sleep(Duration::from_millis(1)).await;
+        }
+        let term = events.lock().unwrap().iter().filter(|e| e.starts_with("Terminated") || e.as_str() == "Failed").count();
+        let fin = if fin_ok { cell.get_status() as u8 } else { 255 };
+        sup_ref.stop(None);
+        format!("res={res} el={el} st={st} ev={ev} fin={fin} term={term}")
+    });
+    env.log.rec(format!("xtimeout {idx} kind={kind} d={d_us}"), obs.clone());
+    env.st.bump("timeout_cases");
+    env.st.bump(&format!("timeout_{kind}_{}", obs.split(' ').next().unwrap_or("?")));
+}
+
+/// `stop_children_and_wait` / `drain_children_and_wait` on a running parent with `n` running children whose
+/// `post_stop` is gated; another task opens the gate after a few yields. When the call returns every child must be
+/// fully stopped and the parent untouched. (With the async-std backend the per-child waits are polled inline by the
+/// caller through the backend's `JoinSet` wrapper, with tokio they are a `tokio::task::JoinSet`.)
+fn children_case(env: &mut Env, srt: &tokio::runtime::Runtime, rng: &mut Rng, idx: u64) {
+    let kind = *rng.pick(&["stop", "drain"]);
+    let n = rng.range(1, 4) as usize;
+    let open_after = rng.range(0, 3) * rng.range(0, 200);
+    let gate = Arc::new(tokio::sync::Semaphore::new(0));
+    let obs = srt.block_on(async {
+        // (`Sup` overrides the default supervision policy, which would stop the parent with its first child)
+        let (parent, _) = Actor::spawn(None, Sup { events: Arc::new(Mutex::new(Vec::new())) }, ()).await.expect("spawn parent");
+        // (`spawn` returns after `pre_start`; the loop task sets `Running` after `post_start`)
+        while parent.get_status() != ractor::ActorStatus::Running {
+            tokio::task::yield_now().await;
+        }
+        let mut kids = Vec::new();
+        for _ in 0..n {
+            let (k, _) = Actor::spawn_linked(None, Gated { gate: gate.clone() }, (), parent.get_cell()).await.expect("spawn kid");
+            kids.push(k);
+        }
+        for k in &kids {
+            while k.get_status() != ractor::ActorStatus::Running {
+                tokio::task::yield_now().await;
+            }
+        }
+        let g2 = gate.clone();
+        let opener = tokio::spawn(async move {
+            for _ in 0..open_after {
+                tokio::task::yield_now().await;
+            }
+            g2.add_permits(64);
+        });
+        let cell = parent.get_cell();
+        let fut = async {
+            match kind {
+                "stop" => cell.stop_children_and_wait(None, None).await,
+                _ => cell.drain_children_and_wait(None).await,
+            }
+        };
+        let returned = tokio::time::timeout(Duration::from_secs(10), fut).await.is_ok();
+        let sts: Vec<String> = kids.iter().map(|k| (k.get_status() as u8).to_string()).collect();
+        let pst = parent.get_status() as u8;
+        let _ = opener.await;
+        gate.add_permits(64);
+        parent.stop(None);
+        format!("ret={} kids={} parent={pst}", returned as u8, sts.join(","))
+    });
+    env.log.rec(format!("xchildren {idx} kind={kind} n={n}"), obs);
+    env.st.bump("children_cases");
+    env.st.bump(&format!("children_{kind}"));
+}
+
 fn replay_file(env: &mut Env, path: &str) {
     let txt = std::fs::read_to_string(path).unwrap_or_else(|e| panic!("cannot read {path}: {e}"));
     let lines: Vec<&str> = txt.lines().collect();
@@ -1351,7 +1496,10 @@ fn main() {
             replay_file(&mut env, f);
         }
     }
-    if args.u64("only-replay", 0) == 0 {
+    // `--stress-only 1`: only the free-running cases (the schedule-point engine needs the actor's task on a
+    // registered OS thread, which only the tokio backend's per-thread runtime gives)
+    let stress_only = args.u64("stress-only", 0) != 0 || cfg!(feature = "async-std");
+    if args.u64("only-replay", 0) == 0 && !stress_only {
         // every schedule of small configurations
         // a late `drain()` at every position of the exit sequence, a successor taking the freed name
         // at every position after it was freed
@@ -1428,6 +1576,20 @@ fn main() {
         let spawner = ThreadLocalActorSpawner::new();
         for i in 0..stress {
             stress_case(&mut env, &srt, &spawner, &mut rng, i);
+        }
+    }
+    let timeouts = args.u64("timeouts", 0);
+    if timeouts > 0 && args.u64("only-replay", 0) == 0 {
+        let srt = tokio::runtime::Builder::new_multi_thread().worker_threads(2).enable_time().build().expect("timeout runtime");
+        for i in 0..timeouts {
+            timeout_case(&mut env, &srt, &mut rng, i);
+        }
+    }
+    let children = args.u64("children", 0);
+    if children > 0 && args.u64("only-replay", 0) == 0 {
+        let srt = tokio::runtime::Builder::new_multi_thread().worker_threads(2).enable_time().build().expect("children runtime");
+        for i in 0..children {
+            children_case(&mut env, &srt, &mut rng, i);
         }
     }
     env.st.add("lines", env.log.lines);
